@@ -325,7 +325,8 @@ func isIdent(s string) bool {
 		return false
 	}
 	for i, r := range s {
-		if !(r == '_' || r >= 'a' && r <= 'z' || r >= 'A' && r <= 'Z' || (i > 0 && r >= '0' && r <= '9')) {
+		// mtail identifiers start with a letter
+		if !(r >= 'a' && r <= 'z' || r >= 'A' && r <= 'Z' || (i > 0 && (r == '_' || r >= '0' && r <= '9'))) {
 			return false
 		}
 	}
